@@ -689,6 +689,25 @@ def xdep(P, rep, funcs, rule="XDEP"):
                 callee = P.d(par.get("callee")).get("qn", "")
                 if callee.endswith("::properties") or callee.endswith("properties_output_size"):
                     continue
+            # captured by a local lambda: the uses inside its body are judged like uses here (current element only)
+            if par is not None and par.get("k") == "LambdaExpr" and par.get("lam") in P.funcs and P.funcs[par["lam"]].body is not None:
+                G = P.funcs[par["lam"]]
+                inner_bad = None
+                for m_ in G.walk(G.body):
+                    if m_.get("k") == "DeclRefExpr" and m_.get("r") == prop_k:
+                        pp = G.parent.get(m_["i"])
+                        while pp is not None and pp.get("k") in norm.CASTS:
+                            pp = G.parent.get(pp["i"])
+                        s2 = astq.subscript(pp)
+                        if not (s2 is not None and sc(s2[0]) is m_ and sc(s2[1]).get("k") == "DeclRefExpr" and sc(s2[1])["r"] in ivs):
+                            inner_bad = (m_, pp)
+                            break
+                if inner_bad is None:
+                    continue
+                rep.violation(rule, "%s: a local lambda uses the request list other than through the current element: %s" % (F.qn, norm.render(P, inner_bad[1])[:80]),
+                              F.nloc(n), F.qn, norm.render(P, inner_bad[1])[:120], "the answer depends on how the request is batched", key="%s|%s|lambda" % (rule, F.qn),
+                              witness="the same property requested alone and together with another one")
+                continue
             mc = None
             gp = F.parent.get(par["i"]) if par is not None else None
             if par is not None and par.get("k") == "MemberExpr":
